@@ -311,6 +311,14 @@ def run(tier):
     chk.coverage["evaluations"] += len(ssrc)
     for x in ssrc[::17]:
         chk.count(("spec", x["template"]))
+    mism_f, err_f, nsh_f, fsrc, fskipped = tc.k_spec_full("C17", "k_spec_full", rng, 1000 if thorough else 150, min(maxdepth, 5))
+    if mism_f or err_f:
+        k_broken = True
+        k_detail["spec_full_mismatches"] = [fsrc[i] for i in mism_f[:5]]
+        k_detail["errors"].append(err_f)
+    chk.coverage["evaluations"] += len(fsrc)
+    for x in fsrc[::13]:
+        chk.count(("specfull", x["template"]))
 
     # ---------------- K: RepeatVariable arithmetic, exhaustive for positions 0..5000 ----------------
     pairs = []
@@ -362,8 +370,11 @@ def run(tier):
         "evaluate_not_found_results": sum(1 for x in esrc if x["real"]["res"] is None),
         "evaluate_with_python_evaluations": sum(1 for x in esrc if x["real"]["evals"] > 0),
         "spec_and_data_vm_cases": len(ssrc), "spec_mismatches": len(mism_s), "spec_skipped": sskipped,
+        "spec_full_cases": len(fsrc), "spec_full_mismatches": len(mism_f), "spec_full_skipped": fskipped,
+        "spec_full_with_repeat": sum(1 for x in fsrc if "tal:repeat" in x["template"]),
+        "spec_full_with_define": sum(1 for x in fsrc if "tal:define" in x["template"]),
         "repeat_variable_cases": len(pairs), "repeat_variable_mismatches": len(mism_r),
-        "errors": [e for e in (err, err_t, err_r, err_c, err_e, err_s) if e],
+        "errors": [e for e in (err, err_t, err_r, err_c, err_e, err_s, err_f) if e],
     }
     cov["oracle"] = {"templates": len(cases), "status": stats, "programs_not_wf": notwf,
                      "depth_histogram": {str(k): v for k, v in sorted(depth_hist.items())},
